@@ -82,7 +82,19 @@ def extract_function(src, sig_re, which=0):
                 start_line=src.count('\n', 0, m.start()) + 1, end_line=src.count('\n', 0, e) + 1)
 
 def extract_const(src, regex):
-    m = re.search(regex, src, re.S)
+    # whitespace-tolerant: a literal blank in the unit's regex matches any run of white space (a reformatted definition
+    # that is split over lines is still found); blanks inside character classes are left alone
+    out = []; depth = 0; i = 0
+    while i < len(regex):
+        c = regex[i]
+        if c == '\\' and i + 1 < len(regex): out.append(regex[i:i + 2]); i += 2; continue
+        if c == '[': depth += 1
+        elif c == ']' and depth: depth -= 1
+        if c == ' ' and depth == 0: out.append(r'\s+')
+        else: out.append(c)
+        i += 1
+    tolerant = ''.join(out).replace(r'\s+=\s+', r'\s*=\s*')
+    m = re.search(tolerant, src, re.S) or re.search(regex, src, re.S)
     if not m: raise ExtractError('constant not found: ' + regex)
     return m.group(1).strip()
 
